@@ -180,7 +180,10 @@ timeo_cb(int UNUSED(signum))
 		sigaction(SIGALRM, &sa, NULL);
 	}
 	block_sigs();
-	kill(chld, SIGXCPU);
+	if (LIKELY(chld > 0)) {
+		/* pid 0 is our whole process group, daemon and all */
+		kill(chld, SIGXCPU);
+	}
 	return;
 }
 
